@@ -13,4 +13,4 @@ for id in "$@"; do
     echo "$id w$n p$k: $(./tools/mutrun.py $id quick --patch $f 2>&1 | tail -1)"
   done
 done
-rm -f replays/*.json
+[ -n "$KEEP_REPLAYS" ] || rm -f replays/*.json
